@@ -63,7 +63,7 @@ func runC18(e *env) {
 	var pends []pend
 	for i := range cases {
 		r := &res[i]
-		if r.Class == "hang" || r.Class == "crash" {
+		if r.Class == "hang" || r.Class == "crash" || r.Class == "skipped" {
 			continue
 		}
 		switch cases[i].Kind {
@@ -132,11 +132,14 @@ func runC18(e *env) {
 			// a parse that never returns is C05's matter (the property speaks of calls that return)
 			e.res.Histogram["not-returning:hang(C05)"]++
 			if e.res.Histogram["not-returning:hang(C05)"] <= 12 {
-				e.res.Note("does not return within 2 s (C05): %s %s", c.Kind, hx.Q(clip(c.Text, 200)))
+				e.res.Note("does not return within 2 s (C05): %s %s hex=%s", c.Kind, hx.Q(clip(c.Text, 200)), hx.H(c.Text))
 			}
 			continue
 		case "crash":
 			e.res.Histogram["not-returning:process-crash(C05)"]++
+			continue
+		case "skipped":
+			e.res.Histogram["not-run:after-too-many-hangs"]++
 			continue
 		}
 		total += r.Leak
